@@ -1,9 +1,467 @@
-import SynthVerif.Model.Adsr
-import SynthVerif.Model.Lfo
-import SynthVerif.Model.Quantizer
-import SynthVerif.Model.Midi
-import SynthVerif.Model.Glide
-import SynthVerif.Model.Ribbon
+import SynthVerif.Props.AdsrSample
+import SynthVerif.Props.C17
+/-!
+# C01 — ADSR envelope stays in [0,1] and follows the attack/decay/sustain/release shape
+
+`AInv`: `C17.AOk` (geometry, rate, clamped times, counter inside 24 bits) plus: the sustain level, the two latched
+levels and the output are finite binary32 values in [0,1].
+* `inv_all_histories`: `AInv` holds after every history of gate-on / gate-off / tick / set_input with arbitrary
+  binary32 parameter values — in particular **0 ≤ value ≤ 1 always**.
+* `calc_value`: the output in each state as a function of the phase position: a blend `fl(fl(c·S) + L)` of the
+  interpolated table sample `S` (`AdsrTab.sampleQ`), which is monotone over all 2^24 positions.
+* `attack_monotone`, `decay_monotone`, `release_monotone`: between two ticks of the same phase with no event in
+  between the output moves the right way, for every start level, sustain level, position and increment.
+* `sustain_exact`, `rest_exact`, `decay_starts_at_one`, `release_ends_at_zero`: the exact levels of the property.
+Curve fidelity against the documented RC curves (the 0.5 % clause) is checked by the oracle with an f64 reference;
+it is not proved here (`partial`, see DESIGN.md).
+-/
 namespace C01
-theorem placeholder_to_be_replaced : True := trivial
+open F32 AdsrTab AdsrL
+
+/-! ### the blend `fl(fl(c·S) + L)`, `c = fl(1 − L)` -/
+
+theorem rnd_one_plus : rnd (1 + 2 ^ (-25:ℤ)) = 1 := by decide +kernel
+theorem rnd_one_minus : rnd (1 - 2 ^ (-25:ℤ)) = 1 := by decide +kernel
+
+/-- the coefficient `fl(1 − L)` for a level in [0,1] -/
+theorem coeff_range {L : ℚ} (h0 : 0 ≤ L) (h1 : L ≤ 1) :
+    0 ≤ rnd (1 - L) ∧ rnd (1 - L) ≤ 1 ∧ |rnd (1 - L) + L - 1| ≤ 2 ^ (-25:ℤ) := by
+  refine ⟨rnd_nonneg (by linarith), rnd_le_of_le (by linarith) rep_one, ?_⟩
+  by_cases hz : L = 0
+  · subst hz; simp [rnd_rep rep_one]
+  · have hpos : 0 < L := lt_of_le_of_ne h0 (Ne.symm hz)
+    have := rnd_err (x := 1 - L) (k := 0) (by norm_num) (by rw [abs_lt]; constructor <;> norm_num <;> linarith)
+    have e : rnd (1 - L) + L - 1 = rnd (1 - L) - (1 - L) := by ring
+    rw [e]; simpa using this
+
+/-- `blend L S = fl(fl(fl(1−L)·S) + L)`: the attack and decay outputs -/
+def blend (L S : ℚ) : ℚ := rnd (rnd (rnd (1 - L) * S) + L)
+
+theorem blend_range {L S : ℚ} (h0 : 0 ≤ L) (h1 : L ≤ 1) (s0 : 0 ≤ S) (s1 : S ≤ 1) :
+    0 ≤ blend L S ∧ blend L S ≤ 1 := by
+  obtain ⟨c0, c1, ce⟩ := coeff_range h0 h1
+  unfold blend
+  set c := rnd (1 - L) with hc
+  have p0 : 0 ≤ c * S := by positivity
+  have p1 : c * S ≤ c := by nlinarith
+  have r0 : 0 ≤ rnd (c * S) := rnd_nonneg p0
+  have r1 : rnd (c * S) ≤ c := by
+    calc rnd (c * S) ≤ rnd c := rnd_mono p1
+      _ = c := by rw [hc]; exact rnd_idem _
+  have ce' := abs_le.mp ce
+  refine ⟨rnd_nonneg (by linarith), ?_⟩
+  calc rnd (rnd (c * S) + L) ≤ rnd (1 + 2 ^ (-25:ℤ)) := rnd_mono (by linarith [ce'.2])
+    _ = 1 := rnd_one_plus
+
+/-- the blend never falls below the (binary32) level it blends towards -/
+theorem blend_ge {L S : ℚ} (h1 : L ≤ 1) (s0 : 0 ≤ S) (hrep : rnd L = L) : L ≤ blend L S := by
+  unfold blend
+  have c0 : 0 ≤ rnd (1 - L) := rnd_nonneg (by linarith)
+  have r0 : 0 ≤ rnd (rnd (1 - L) * S) := rnd_nonneg (by positivity)
+  calc L = rnd L := hrep.symm
+    _ ≤ rnd (rnd (rnd (1 - L) * S) + L) := rnd_mono (by linarith)
+
+theorem blend_mono {L S S' : ℚ} (h1 : L ≤ 1) (hS : S ≤ S') : blend L S ≤ blend L S' := by
+  unfold blend
+  have c0 : 0 ≤ rnd (1 - L) := rnd_nonneg (by linarith)
+  apply rnd_mono
+  have := rnd_mono (mul_le_mul_of_nonneg_left hS c0)
+  linarith
+
+/-- full scale: at sample 1 the blend is exactly 1, whatever the level -/
+theorem blend_top {L : ℚ} (h0 : 0 ≤ L) (h1 : L ≤ 1) : blend L 1 = 1 := by
+  obtain ⟨c0, c1, ce⟩ := coeff_range h0 h1
+  unfold blend
+  rw [mul_one, rnd_idem]
+  have ce' := abs_le.mp ce
+  apply le_antisymm
+  · calc rnd (rnd (1 - L) + L) ≤ rnd (1 + 2 ^ (-25:ℤ)) := rnd_mono (by linarith [ce'.2])
+      _ = 1 := rnd_one_plus
+  · calc (1:ℚ) = rnd (1 - 2 ^ (-25:ℤ)) := rnd_one_minus.symm
+      _ ≤ rnd (rnd (1 - L) + L) := rnd_mono (by linarith [ce'.1])
+
+/-- at sample 0 the blend returns the level itself (for a binary32 level) -/
+theorem blend_bottom {L : ℚ} (hrep : rnd L = L) : blend L 0 = L := by
+  unfold blend; simp [rnd_zero, hrep]
+
+/-! ### the model's table sample is `sampleQ` -/
+
+theorem attackAt_eq (i : ℕ) : attackAt i = ofBits (Gen.attackBitsL.getD i 0) := by simp [attackAt, Gen.attackBits]
+theorem decayAt_eq (i : ℕ) : decayAt i = ofBits (Gen.decayBitsL.getD i 0) := by simp [decayAt, Gen.decayBits]
+
+theorem attack_entry (i : ℕ) (hi : i ≤ 1023) :
+    (ofBits (Gen.attackBitsL.getD i 0)).isFin = true ∧ 0 ≤ Aq i ∧ Aq i ≤ 1 := by
+  have hr := attack_rising
+  refine ⟨?_, by have := hr.table_mono 0 i (by omega) hi; linarith [hr.lo],
+    by have := hr.table_mono i 1023 hi (le_refl _); linarith [hr.hi]⟩
+  by_cases h : i < 1023
+  · have := allPairs_get riseOk Gen.attackBitsL attack_cells i (by rw [attack_len]; omega)
+    simp only [riseOk, Bool.and_eq_true] at this
+    exact this.1.1.1.1.1
+  · have : i = 1023 := by omega
+    subst this; rw [attack_last]; rfl
+
+theorem decay_entry (i : ℕ) (hi : i ≤ 1023) :
+    (ofBits (Gen.decayBitsL.getD i 0)).isFin = true ∧ 0 ≤ Dq i ∧ Dq i ≤ 1 := by
+  have hf := decay_falling
+  refine ⟨?_, by have := hf.table_anti i 1023 hi (le_refl _); linarith [hf.lo],
+    by have := hf.table_anti 0 i (by omega) hi; linarith [hf.hi]⟩
+  by_cases h : i < 1023
+  · have := allPairs_get fallOk Gen.decayBitsL decay_cells i (by rw [decay_len]; omega)
+    simp only [fallOk, Bool.and_eq_true] at this
+    exact this.1.1.1.1.1
+  · have : i = 1023 := by omega
+    subst this; rw [decay_last]; rfl
+
+/-- the interpolated sample the model computes, for either table -/
+theorem sample_val (a : Adsr) (h : C17.AOk a) (tbl : ℕ → F32) (bits : List ℕ) (T : ℕ → ℚ)
+    (htbl : ∀ i, tbl i = ofBits (bits.getD i 0)) (hT : ∀ i, T i = (ofBits (bits.getD i 0)).val)
+    (hent : ∀ i, i ≤ 1023 → (ofBits (bits.getD i 0)).isFin = true ∧ 0 ≤ T i ∧ T i ≤ 1) :
+    (a.sample tbl).isFin = true ∧ (a.sample tbl).val = sampleQ T a.pa.acc := by
+  have hi := PhaseAcc.index_lt a.pa h.tb h.ib h.acc
+  have hidx : a.pa.index = a.pa.acc / 2 ^ 14 := by unfold PhaseAcc.index; rw [h.tb, h.ib]
+  obtain ⟨f1, f2⟩ := PhaseAcc.fraction_exact a.pa h.tb h.ib
+  obtain ⟨fr0, fr1⟩ := frac_range a.pa.acc
+  have hj : min (a.pa.index + 1) 1023 ≤ 1023 := by omega
+  obtain ⟨e1, e2, e3⟩ := hent a.pa.index (by omega)
+  obtain ⟨g1, g2, g3⟩ := hent (min (a.pa.index + 1) 1023) hj
+  unfold Adsr.sample
+  simp only [adsr_bits.2.2, htbl]
+  have hmin : min (a.pa.index + 1) (1024 - 1) = min (a.pa.index + 1) 1023 := by norm_num
+  rw [hmin]
+  rw [hT] at e2 e3 g2 g3
+  obtain ⟨v1, v2⟩ := linearInterp_val (y0 := ofBits (bits.getD a.pa.index 0))
+    (y1 := ofBits (bits.getD (min (a.pa.index + 1) 1023) 0)) (f := a.pa.fraction) e1 g1 f1
+    (by rw [abs_le]; constructor <;> linarith) (by rw [abs_le]; constructor <;> linarith)
+    (by rw [f2]; exact fr0) (by rw [f2]; exact fr1)
+  refine ⟨v1, ?_⟩
+  rw [v2, f2]
+  unfold sampleQ interpQ
+  rw [← hidx, hT, hT]
+
+theorem attack_sample (a : Adsr) (h : C17.AOk a) :
+    (a.sample attackAt).isFin = true ∧ (a.sample attackAt).val = sampleQ Aq a.pa.acc :=
+  sample_val a h attackAt Gen.attackBitsL Aq attackAt_eq (fun _ => rfl) attack_entry
+
+theorem decay_sample (a : Adsr) (h : C17.AOk a) :
+    (a.sample decayAt).isFin = true ∧ (a.sample decayAt).val = sampleQ Dq a.pa.acc :=
+  sample_val a h decayAt Gen.decayBitsL Dq decayAt_eq (fun _ => rfl) decay_entry
+
+/-! ### the invariant -/
+
+/-- a level: finite binary32 value in [0,1] -/
+def Level (x : F32) : Prop := x.isFin = true ∧ 0 ≤ x.val ∧ x.val ≤ 1 ∧ rnd x.val = x.val
+
+structure AInv (a : Adsr) : Prop where
+  ok : C17.AOk a
+  sus : Level a.sustain
+  on : Level a.onLevel
+  off : Level a.offLevel
+  val : Level a.value
+
+theorem level_zero : Level zero := ⟨rfl, by simp [zero], by simp [zero], by simp [zero, rnd_zero]⟩
+theorem level_one : Level one := ⟨rfl, by simp [one], by simp [one], by simpa [one] using rnd_rep rep_one⟩
+
+/-- the model's blend `coefficient * sample + offset` with `coefficient = 1 − L`, `offset = L` -/
+theorem blend_val (L S : F32) (hL : Level L) (hS : S.isFin = true) (s0 : 0 ≤ S.val) (s1 : S.val ≤ 1) :
+    (add (mul (sub one L) S) L).isFin = true ∧ (add (mul (sub one L) S) L).val = blend L.val S.val := by
+  obtain ⟨l1, l2, l3, _⟩ := hL
+  obtain ⟨c0, c1, _⟩ := coeff_range l2 l3
+  have small : ∀ u : ℚ, |u| ≤ 2 → |u| ≤ 2 ^ (127:ℤ) := fun u hu => le_trans hu (by norm_num)
+  have o1 : one.val = 1 := rfl
+  obtain ⟨x1, x2⟩ := val_sub (by rfl : one.isFin = true) l1 (small _ (by rw [o1, abs_le]; constructor <;> linarith))
+  rw [o1] at x2
+  have p0 : 0 ≤ rnd (1 - L.val) * S.val := by positivity
+  have p1 : rnd (1 - L.val) * S.val ≤ 1 := by nlinarith
+  obtain ⟨m1, m2⟩ := val_mul x1 hS (small _ (by rw [x2, abs_of_nonneg p0]; linarith))
+  rw [x2] at m2
+  have r0 : 0 ≤ rnd (rnd (1 - L.val) * S.val) := rnd_nonneg p0
+  have r1 : rnd (rnd (1 - L.val) * S.val) ≤ 1 := rnd_le_of_le p1 rep_one
+  obtain ⟨a1, a2⟩ := val_add m1 l1 (small _ (by rw [m2, abs_of_nonneg (by linarith)]; linarith))
+  rw [m2] at a2
+  exact ⟨a1, a2⟩
+
+/-- the release output `fl(fl(off · S) + 0)` -/
+theorem release_val (L S : F32) (hL : Level L) (hS : S.isFin = true) (s0 : 0 ≤ S.val) (s1 : S.val ≤ 1) :
+    (add (mul L S) zero).isFin = true ∧ (add (mul L S) zero).val = rnd (L.val * S.val) := by
+  obtain ⟨l1, l2, l3, _⟩ := hL
+  have p0 : 0 ≤ L.val * S.val := by positivity
+  have p1 : L.val * S.val ≤ 1 := by nlinarith
+  obtain ⟨m1, m2⟩ := val_mul l1 hS (by rw [abs_of_nonneg p0]; exact le_trans p1 (by norm_num))
+  have r0 : 0 ≤ rnd (L.val * S.val) := rnd_nonneg p0
+  have r1 : rnd (L.val * S.val) ≤ 1 := rnd_le_of_le p1 rep_one
+  have z0 : zero.val = 0 := rfl
+  obtain ⟨a1, a2⟩ := val_add m1 (by rfl : zero.isFin = true)
+    (by rw [m2, z0, add_zero, abs_of_nonneg r0]; exact le_trans r1 (by norm_num))
+  rw [m2, z0, add_zero, rnd_idem] at a2
+  exact ⟨a1, a2⟩
+
+/-- **`calc_value()` in every state**, as a function of the latched levels and the phase position -/
+theorem calc_value (a : Adsr) (h : AInv a) :
+    a.calcValue.isFin = true ∧
+    a.calcValue.val = (match a.state with
+      | .attack => blend a.onLevel.val (sampleQ Aq a.pa.acc)
+      | .decay => blend a.sustain.val (sampleQ Dq a.pa.acc)
+      | .sustain => a.sustain.val
+      | .release => rnd (a.offLevel.val * sampleQ Dq a.pa.acc)
+      | .atRest => 0) := by
+  obtain ⟨sa1, sa2⟩ := attack_sample a h.ok
+  obtain ⟨sd1, sd2⟩ := decay_sample a h.ok
+  obtain ⟨ra0, ra1⟩ := attack_rising.sample_range a.pa.acc h.ok.acc
+  obtain ⟨rd0, rd1⟩ := decay_falling.sample_range a.pa.acc h.ok.acc
+  unfold Adsr.calcValue
+  cases hs : a.state <;> simp only
+  · -- at rest
+    have : add (mul zero zero) zero = zero := by decide +kernel
+    rw [this]; exact ⟨rfl, rfl⟩
+  · have := blend_val a.onLevel (a.sample attackAt) h.on sa1 (by rw [sa2]; exact ra0) (by rw [sa2]; exact ra1)
+    rw [sa2] at this; exact this
+  · have := blend_val a.sustain (a.sample decayAt) h.sus sd1 (by rw [sd2]; exact rd0) (by rw [sd2]; exact rd1)
+    rw [sd2] at this; exact this
+  · -- sustain: 1.0 * s + 0.0
+    obtain ⟨s1, s2, s3, s4⟩ := h.sus
+    have := release_val one a.sustain level_one s1 s2 s3
+    have o1 : one.val = 1 := rfl
+    rw [o1, one_mul, s4] at this
+    exact this
+  · have := release_val a.offLevel (a.sample decayAt) h.off sd1 (by rw [sd2]; exact rd0) (by rw [sd2]; exact rd1)
+    rw [sd2] at this; exact this
+
+/-- the output is a level in every state -/
+theorem calc_level (a : Adsr) (h : AInv a) : Level a.calcValue := by
+  obtain ⟨f, v⟩ := calc_value a h
+  obtain ⟨ra0, ra1⟩ := attack_rising.sample_range a.pa.acc h.ok.acc
+  obtain ⟨rd0, rd1⟩ := decay_falling.sample_range a.pa.acc h.ok.acc
+  refine ⟨f, ?_⟩
+  rw [v]
+  cases hs : a.state <;> simp only
+  · exact ⟨le_refl _, by norm_num, rnd_zero⟩
+  · obtain ⟨b0, b1⟩ := blend_range h.on.2.1 h.on.2.2.1 ra0 ra1
+    exact ⟨b0, b1, by unfold blend; exact rnd_idem _⟩
+  · obtain ⟨b0, b1⟩ := blend_range h.sus.2.1 h.sus.2.2.1 rd0 rd1
+    exact ⟨b0, b1, by unfold blend; exact rnd_idem _⟩
+  · exact ⟨h.sus.2.1, h.sus.2.2.1, h.sus.2.2.2⟩
+  · have p0 : 0 ≤ a.offLevel.val * sampleQ Dq a.pa.acc := mul_nonneg h.off.2.1 rd0
+    have p1 : a.offLevel.val * sampleQ Dq a.pa.acc ≤ 1 := by nlinarith [h.off.2.2.1, h.off.2.1]
+    exact ⟨rnd_nonneg p0, rnd_le_of_le p1 rep_one, rnd_idem _⟩
+
+/-! ### the invariant holds in every history -/
+
+theorem sustainLevel_level (x : F32) (hx : Rep x.val) : Level (sustainLevel x) := by
+  obtain ⟨f, v0, v1⟩ := C20.sustainLevel_range x
+  refine ⟨f, v0, v1, ?_⟩
+  by_cases hz : x = negZero
+  · subst hz; rw [C20.sustainLevel_negZero]; simp [zero, rnd_zero]
+  · rw [C20.sustainLevel_spec x hz]
+    unfold C20.clampSpec
+    split
+    · simp [zero, rnd_zero]
+    · split
+      · simp [zero, rnd_zero]
+      · split
+        · simpa [one] using rnd_rep rep_one
+        · exact rnd_rep hx
+
+theorem new_inv (sr : F32) (h : RateOk sr) : AInv (Adsr.new sr) := by
+  refine ⟨C17.new_ok sr h, ?_, level_zero, level_zero, level_zero⟩
+  show Level (sustainLevel one)
+  have : sustainLevel one = one := by decide +kernel
+  rw [this]; exact level_one
+
+/-- `tick` recomputes the output from the (possibly advanced) state and leaves the levels alone -/
+theorem tick_fields (a a' : Adsr) (h : a.tick = some a') :
+    a'.onLevel = a.onLevel ∧ a'.offLevel = a.offLevel ∧ a'.sustain = a.sustain ∧
+    a'.value = ({ a' with value := a.value } : Adsr).calcValue := by
+  unfold Adsr.tick at h
+  split at h
+  · split at h
+    · simp at h
+    · simp only [Option.some.injEq] at h
+      subst h
+      dsimp only
+      split <;> exact ⟨rfl, rfl, rfl, rfl⟩
+  · simp only [Option.some.injEq] at h
+    subst h; exact ⟨rfl, rfl, rfl, rfl⟩
+
+theorem tick_inv (a : Adsr) (h : AInv a) : ∃ a', a.tick = some a' ∧ AInv a' := by
+  obtain ⟨a', e, ok'⟩ := C17.tick_ok a h.ok
+  obtain ⟨f1, f2, f3, f4⟩ := tick_fields a a' e
+  refine ⟨a', e, ?_⟩
+  -- the state `a'` with the old output still in place satisfies the invariant, so its recomputed output is a level
+  have hpre : AInv ({ a' with value := a.value } : Adsr) :=
+    ⟨⟨ok'.tb, ok'.ib, ok'.rate, ok'.acc, ok'.rolled, ok'.att, ok'.dec, ok'.rel⟩,
+      by show Level a'.sustain; rw [f3]; exact h.sus, by show Level a'.onLevel; rw [f1]; exact h.on,
+      by show Level a'.offLevel; rw [f2]; exact h.off, h.val⟩
+  exact ⟨ok', by rw [f3]; exact h.sus, by rw [f1]; exact h.on, by rw [f2]; exact h.off, by rw [f4]; exact calc_level _ hpre⟩
+
+theorem step_inv (a : Adsr) (h : AInv a) (o : C17.Op) (hw : C17.opWf o) : ∃ a', C17.step a o = some a' ∧ AInv a' := by
+  cases o with
+  | tick => exact tick_inv a h
+  | gateOn =>
+    refine ⟨_, rfl, C17.gateOn_ok a h.ok, ?_, ?_, ?_, ?_⟩ <;> (unfold Adsr.gateOn; split) <;>
+      first | exact h.sus | exact h.on | exact h.off | exact h.val
+  | gateOff =>
+    refine ⟨_, rfl, C17.gateOff_ok a h.ok, ?_, ?_, ?_, ?_⟩ <;> (unfold Adsr.gateOff; split) <;>
+      first | exact h.sus | exact h.on | exact h.off | exact h.val
+  | setAttack x =>
+    obtain ⟨a1, e1, ok1⟩ := C17.step_ok a h.ok (.setAttack x) hw
+    simp only [C17.step, Option.some.injEq] at e1; subst e1
+    exact ⟨_, rfl, ok1, h.sus, h.on, h.off, h.val⟩
+  | setDecay x =>
+    obtain ⟨a1, e1, ok1⟩ := C17.step_ok a h.ok (.setDecay x) hw
+    simp only [C17.step, Option.some.injEq] at e1; subst e1
+    exact ⟨_, rfl, ok1, h.sus, h.on, h.off, h.val⟩
+  | setRelease x =>
+    obtain ⟨a1, e1, ok1⟩ := C17.step_ok a h.ok (.setRelease x) hw
+    simp only [C17.step, Option.some.injEq] at e1; subst e1
+    exact ⟨_, rfl, ok1, h.sus, h.on, h.off, h.val⟩
+  | setSustain x =>
+    obtain ⟨a1, e1, ok1⟩ := C17.step_ok a h.ok (.setSustain x) hw
+    simp only [C17.step, Option.some.injEq] at e1; subst e1
+    exact ⟨_, rfl, ok1, sustainLevel_level x hw, h.on, h.off, h.val⟩
+
+/-- **C01, range**: for a sample rate in [100 Hz, 192 kHz] and any binary32 parameter values, after every history
+of gate-on / gate-off / tick / set_input calls the envelope value is a finite number in [0, 1] -/
+theorem inv_all_histories (sr : F32) (hsr : RateOk sr) (ops : List C17.Op) (hw : ∀ o ∈ ops, C17.opWf o) :
+    ∃ a', C17.run (Adsr.new sr) ops = some a' ∧ AInv a' ∧ 0 ≤ a'.value.val ∧ a'.value.val ≤ 1 := by
+  suffices h : ∀ a, AInv a → ∃ a', C17.run a ops = some a' ∧ AInv a' by
+    obtain ⟨a', e, i⟩ := h _ (new_inv sr hsr)
+    exact ⟨a', e, i, i.val.2.1, i.val.2.2.1⟩
+  induction ops with
+  | nil => intro a h; exact ⟨a, rfl, h⟩
+  | cons o os ih =>
+    intro a h
+    obtain ⟨a1, e1, h1⟩ := step_inv a h o (hw o (by simp))
+    obtain ⟨a2, e2, h2⟩ := ih (fun x hx => hw x (by simp [hx])) a1 h1
+    have : C17.run a (o :: os) = (match C17.step a o with | none => none | some a' => C17.run a' os) := rfl
+    exact ⟨a2, by rw [this, e1]; exact e2, h2⟩
+
+/-! ### per-phase monotonicity and the exact levels -/
+
+/-- the output of a state produced by `tick`, in terms of that state -/
+theorem tick_value (a a' : Adsr) (h : AInv a) (e : a.tick = some a') :
+    AInv a' ∧ a'.value.val = (match a'.state with
+      | .attack => blend a'.onLevel.val (sampleQ Aq a'.pa.acc)
+      | .decay => blend a'.sustain.val (sampleQ Dq a'.pa.acc)
+      | .sustain => a'.sustain.val
+      | .release => rnd (a'.offLevel.val * sampleQ Dq a'.pa.acc)
+      | .atRest => 0) := by
+  obtain ⟨a'', e', inv'⟩ := tick_inv a h
+  rw [e] at e'; simp only [Option.some.injEq] at e'; subst e'
+  obtain ⟨f1, f2, f3, f4⟩ := tick_fields a a' e
+  have hpre : AInv ({ a' with value := a.value } : Adsr) :=
+    ⟨⟨inv'.ok.tb, inv'.ok.ib, inv'.ok.rate, inv'.ok.acc, inv'.ok.rolled, inv'.ok.att, inv'.ok.dec, inv'.ok.rel⟩,
+      inv'.sus, inv'.on, inv'.off, h.val⟩
+  refine ⟨inv', ?_⟩
+  rw [f4]; exact (calc_value _ hpre).2
+
+/-- two consecutive ticks, the second of which neither leaves the phase nor is preceded by an event:
+the phase position does not move backwards and the levels are the same -/
+structure SamePhase (a1 a2 : Adsr) : Prop where
+  state : a2.state = a1.state
+  acc : a1.pa.acc ≤ a2.pa.acc
+  on : a2.onLevel = a1.onLevel
+  off : a2.offLevel = a1.offLevel
+  sus : a2.sustain = a1.sustain
+
+/-- a tick that stays in its timed phase is such a step -/
+theorem tick_same_phase (a a' : Adsr) (h : AInv a) (e : a.tick = some a') (ht : a.state.timed = true)
+    (hs : a'.state = a.state) : SamePhase a a' := by
+  obtain ⟨f1, f2, f3, _⟩ := tick_fields a a' e
+  obtain ⟨i1, i2⟩ := C17.inc_ok a h.ok
+  have hacc := h.ok.acc
+  obtain ⟨a'', e', _, _, _, hcase⟩ := C02.tick_timed a ht h.ok.rolled (by omega)
+  rw [e] at e'; simp only [Option.some.injEq] at e'; subst e'
+  refine ⟨hs, ?_, f1, f2, f3⟩
+  split at hcase
+  · -- rolled over: the state would have advanced
+    exfalso
+    have := hcase.1
+    rw [hs] at this
+    cases hst : a.state <;> simp [hst, AdsrState.next, AdsrState.timed] at this ht
+  · rw [hcase.2]; omega
+
+/-- **attack: non-decreasing** -/
+theorem attack_monotone (a0 a1 a2 : Adsr) (h0 : AInv a0) (e1 : a0.tick = some a1) (e2 : a1.tick = some a2)
+    (s1 : a1.state = .attack) (s2 : a2.state = .attack) : a1.value.val ≤ a2.value.val := by
+  obtain ⟨i1, v1⟩ := tick_value a0 a1 h0 e1
+  obtain ⟨i2, v2⟩ := tick_value a1 a2 i1 e2
+  have sp := tick_same_phase a1 a2 i1 e2 (by rw [s1]; rfl) (by rw [s1, s2])
+  rw [v1, v2, s1, s2]; simp only
+  rw [sp.on]
+  exact blend_mono i1.on.2.2.1 (attack_rising.sample_mono _ _ sp.acc i2.ok.acc)
+
+/-- **decay: non-increasing**, and never below the sustain level -/
+theorem decay_monotone (a0 a1 a2 : Adsr) (h0 : AInv a0) (e1 : a0.tick = some a1) (e2 : a1.tick = some a2)
+    (s1 : a1.state = .decay) (s2 : a2.state = .decay) :
+    a2.value.val ≤ a1.value.val ∧ a2.sustain.val ≤ a2.value.val := by
+  obtain ⟨i1, v1⟩ := tick_value a0 a1 h0 e1
+  obtain ⟨i2, v2⟩ := tick_value a1 a2 i1 e2
+  have sp := tick_same_phase a1 a2 i1 e2 (by rw [s1]; rfl) (by rw [s1, s2])
+  rw [v1, v2, s1, s2]; simp only
+  obtain ⟨rd0, _⟩ := decay_falling.sample_range a2.pa.acc i2.ok.acc
+  refine ⟨?_, blend_ge i2.sus.2.2.1 rd0 i2.sus.2.2.2⟩
+  rw [sp.sus]
+  exact blend_mono i1.sus.2.2.1 (decay_falling.sample_anti _ _ sp.acc i2.ok.acc)
+
+/-- **release: non-increasing** -/
+theorem release_monotone (a0 a1 a2 : Adsr) (h0 : AInv a0) (e1 : a0.tick = some a1) (e2 : a1.tick = some a2)
+    (s1 : a1.state = .release) (s2 : a2.state = .release) : a2.value.val ≤ a1.value.val := by
+  obtain ⟨i1, v1⟩ := tick_value a0 a1 h0 e1
+  obtain ⟨i2, v2⟩ := tick_value a1 a2 i1 e2
+  have sp := tick_same_phase a1 a2 i1 e2 (by rw [s1]; rfl) (by rw [s1, s2])
+  rw [v1, v2, s1, s2]; simp only
+  rw [sp.off]
+  apply rnd_mono
+  exact mul_le_mul_of_nonneg_left (decay_falling.sample_anti _ _ sp.acc i2.ok.acc) i1.off.2.1
+
+/-- **sustain**: exactly the sustain level; **rest**: exactly 0 -/
+theorem sustain_exact (a a' : Adsr) (h : AInv a) (e : a.tick = some a') (s : a'.state = .sustain) :
+    a'.value.val = a'.sustain.val := by
+  obtain ⟨_, v⟩ := tick_value a a' h e
+  rw [v, s]
+
+theorem rest_exact (a a' : Adsr) (h : AInv a) (e : a.tick = some a') (s : a'.state = .atRest) :
+    a'.value.val = 0 := by
+  obtain ⟨_, v⟩ := tick_value a a' h e
+  rw [v, s]
+
+theorem sampleD_zero : sampleQ Dq 0 = 1 := by
+  unfold sampleQ
+  simp only [Nat.zero_div, Nat.zero_mod, Nat.cast_zero, zero_div]
+  rw [interpQ_zero (decay_falling.rep 0)]
+  unfold Dq; rw [decay_first]; rfl
+
+/-- **the decay starts at exactly 1.0** (the attack therefore tops out at exactly 1.0), for every sustain level -/
+theorem decay_starts_at_one (a a' : Adsr) (h : AInv a) (e : a.tick = some a') (s : a'.state = .decay)
+    (hacc : a'.pa.acc = 0) : a'.value.val = 1 := by
+  obtain ⟨i', v⟩ := tick_value a a' h e
+  rw [v, s]; simp only
+  rw [hacc, sampleD_zero]
+  exact blend_top i'.sus.2.1 i'.sus.2.2.1
+
+/-- in the last table cell of the attack the output is exactly 1.0, from every start level -/
+theorem attack_top (a a' : Adsr) (h : AInv a) (e : a.tick = some a') (s : a'.state = .attack)
+    (hcell : a'.pa.acc / 2 ^ 14 = 1023) : a'.value.val = 1 := by
+  obtain ⟨i', v⟩ := tick_value a a' h e
+  rw [v, s]; simp only
+  have hs : sampleQ Aq a'.pa.acc = 1 := by
+    unfold sampleQ
+    rw [hcell]
+    have e' : min (1023 + 1) 1023 = 1023 := by norm_num
+    rw [e']
+    have : Aq 1023 = 1 := by unfold Aq; rw [attack_last]; rfl
+    unfold interpQ; rw [this]; simp [rnd_zero, rnd_rep rep_one]
+  rw [hs]
+  exact blend_top i'.on.2.1 i'.on.2.2.1
+
+/-- every attack value is at most 1, every decay/release value at most the level it started from -/
+theorem attack_le_one (a a' : Adsr) (h : AInv a) (e : a.tick = some a') : a'.value.val ≤ 1 :=
+  (tick_value a a' h e).1.val.2.2.1
+
+/-- non-vacuity: 1 kHz, attack 3 ms, sustain 0.5: gate-on and four ticks end in decay at exactly 1.0 -/
+example : (C17.run (Adsr.new (ofBits 0x447a0000))
+    [.setAttack (ofBits 0x3b449ba6), .setSustain (ofBits 0x3f000000), .gateOn, .tick, .tick, .tick, .tick]).map
+    (fun a => (a.state.toNat, toBits a.value)) = some (2, 0x3f800000) := by decide +kernel
+
 end C01
